@@ -97,6 +97,9 @@ pub struct TypeSchema {
     pub name: &'static str,
     pub tag: Option<u64>,
     pub kind: Kind,
+    /// The wire format of this type is not fixed by the documentation (partial custom codecs):
+    /// only format-independent checks run it (len == bytes written, bounded sinks, plain round trip).
+    pub loose: bool,
 }
 
 /// Pre-generated strings and byte strings that borrowed fields point into.
